@@ -17,12 +17,13 @@ import time
 
 import codec as C
 import drive
+import gen
 import p_filter as PF
 import p_schema as PS
 import translate_re as TR
 from codec import M, sansldap
 
-LEAN_TARGETS = ["Verif.Props.C18", "Verif.Props.C18Filter", "Verif.Props.TiesSchema"]
+LEAN_TARGETS = ["Verif.Props.C18", "Verif.Props.C18Filter", "Verif.Props.C18Recv", "Verif.Props.TiesSchema"]
 LEVEL = "proof"
 ASSUMPTIONS = [
     "the running time of CPython's re engine on an input is at most a constant times the size of the backtracking search tree (Re.work)",
@@ -285,6 +286,41 @@ def run(ctx):
                 if len(disagreements) > 10:
                     break
         hist["calls:compared"] = len(creq)
+    # receive: the number of unpack_ldap_message calls on a buffer against the counting model of the parse loop (Model/RecvCost.lean)
+    rreq = []
+    o = M.PackingOptions()
+    for _ in range(ctx.scale(400, 6000)):
+        n = rng.choice([0, 1, 1, 2, 3, 5, 9])
+        data = b"".join(C.msg_from_json(gen.g_msg(rng, rng.choice(["bindReq", "searchReq", "extReq", "extReq", "unbind"]), depth=2)).pack(o) for _ in range(n))
+        r = rng.random()
+        if r < 0.3 and data:
+            data = data[: rng.randrange(len(data) + 1)]                       # incomplete tail
+        elif r < 0.45:
+            data += bytes(rng.randrange(256) for _ in range(rng.choice([1, 2, 5])))   # garbage tail
+        elif r < 0.55 and data:
+            i = rng.randrange(len(data))
+            data = data[:i] + bytes([data[i] ^ rng.choice([1, 0x20, 0x80])]) + data[i + 1:]
+        s_ = sansldap.LDAPServer()
+        steps, calls, out = count_steps(lambda: s_.receive(data), step_bound(len(data)))
+        evaluations += 1
+        hist["steps:receive:" + ("ok" if out == "ok" else out)] += 1
+        if out == "budget":
+            violations.append({"key": None, "what": "receive's step count exceeds the quadratic bound 100*(n+1)^2+5000 (executed source lines)",
+                               "hex": data.hex(), "bytes": len(data), "steps_when_stopped": steps})
+            continue
+        if "unpack_ldap_message" in calls or not data:
+            rreq.append(({"op": "recvattempts", "hex": data.hex()}, calls["unpack_ldap_message"], data))
+    if ctx.driver_ok and rreq:
+        got = drive.run_model([q for q, _, _ in rreq])
+        for (q, pyattempts, data), g in zip(rreq, got):
+            if g.get("attempts") != pyattempts:
+                hist["attempts:differ-from-model"] += 1
+            if pyattempts > 2 * g.get("attempts", 0) + 2:
+                disagreements.append({"what": "receive makes more than twice the unpack_ldap_message calls the counting model (Model/RecvCost.lean) accounts for",
+                                      "hex": data.hex(), "python_attempts": pyattempts, "model": g})
+                if len(disagreements) > 10:
+                    break
+        hist["attempts:compared"] = len(rreq)
     # the same step bound on the other hand-written loops: schema post-processing and receive (total bytes delivered as the size)
     for label, make, sizes in step_families(ctx):
         for k in sizes:
@@ -311,7 +347,8 @@ def run(ctx):
                 "at growing sizes on the public API; (4) the filter parser is run under a line tracer on nested / wide / broken families and generated "
                 "sentences: executed source lines must stay below 100*(n+1)^2+5000 and the number of parser-function calls is compared with the "
                 "counting model's (Model/FilterCost.lean; equal on the unchanged tree, histogram calls:differ-from-model counts differences; more than "
-                "twice the model's count, or a different outcome, is a disagreement); the same step bound is applied to schema post-processing and receive families; "
+                "twice the model's count, or a different outcome, is a disagreement); the number of unpack_ldap_message calls of a receive() on generated / truncated / corrupted buffers is compared "
+                "with the counting model of the parse loop (Model/RecvCost.lean); the same step bound is applied to schema post-processing and receive families; "
                 "distinct = distinct (pattern, unit, context), families and step inputs",
         "samples": samples,
         "histogram": dict(sorted(hist.items())),
